@@ -40,6 +40,8 @@ API = [
 
 
 def run(ck, prog):
+    from props.common import check_memos
+    ck.attempt(check_memos, ck, prog)
     ck.explanation = (
         "Static analysis of the syntax trees of localcider/backend/{sequence,restable,residue}.py and "
         "data/aminoacids.py. Each composition parameter is mapped to an exact normal form (a rational function "
